@@ -519,7 +519,9 @@ def gen_c01(tape, tier):
     opts['no_keep_alive'] = tape.chance(1, 6, 'opt.nokeepalive')
     nhosts = tape.choice((1, 1, 2), 'site.nhosts')
     npages = tape.between(2, 10 if tier == 'thorough' else 8, 'site.npages')
-    site, starts, pages, assets, redirects = refsite.gen_site(tape, nhosts=nhosts, npages=npages, start_in_subdir=opts['no_parent'])
+    # (--no-parent from the top directory: the option must then change nothing)
+    site, starts, pages, assets, redirects = refsite.gen_site(tape, nhosts=nhosts, npages=npages,
+                                                             start_in_subdir=opts['no_parent'] and not tape.chance(1, 4, 'np.at_root'))
     if tape.chance(1, 5, 'multi_start') and len(pages) > 2 and not opts['no_parent']:
         extra = pages[1 + tape.draw(len(pages) - 1, 'start.extra')]
         if extra.origin.key() == starts[0].origin.key() and extra not in starts:
@@ -714,9 +716,23 @@ def gen_c02(tape, tier):
     opts['strong_redirects'] = not tape.chance(1, 4, 'opt.nostrong')
     opts['tries'] = tape.choice((20, 1, 2, 3), 'opt.tries')
     nhosts = tape.choice((2, 3, 1), 'site.nhosts')
+    np_root = opts['no_parent'] and tape.chance(1, 4, 'np.at_root')       # --no-parent from the top directory: must change nothing
+    np_ports = opts['no_parent'] and tape.chance(1, 3, 'np.ports')
     site, starts, pages, assets, redirects = refsite.gen_site(tape, nhosts=nhosts, npages=tape.between(3, 8, 'site.npages'),
-                                                             start_in_subdir=opts['no_parent'])
+                                                             start_in_subdir=opts['no_parent'] and not np_root,
+                                                             main_port=8080 if np_ports else None)
     main = site.origins[0]
+    if np_ports:
+        # the start host on a port of its own, and its https twin on another: links that change the scheme stay on the same
+        # site and stay under the directory rule, whatever the ports are
+        twin = site.add_origin('https', 'site.test', 8443, ip=main.ip)
+        up = site.add(twin, '/up/x.html', 'page')
+        top = site.add(twin, '/top.html', 'page')
+        inside = site.add(twin, starts[0].dir + 'sec.html', 'page')
+        up.links.append((top, top.url))
+        for dst in (up, inside):
+            starts[0].links.append((dst, dst.url))
+        pages += [up, top, inside]
     # cross-host redirect
     if nhosts >= 2 and tape.chance(1, 2, 'site.xredirect'):
         rr = site.add(main, '/d1/xr' if opts['no_parent'] else '/xr', 'redirect')
